@@ -27,7 +27,7 @@ FIELD_OF = {1: "best_block", 2: "newest_valid_block", 3: "ancestor_block",
 NETWORKS = {1: "mainnet", 2: "testnet", 3: "regtest"}
 REQUIRED_LABELS = {t: ["history", "reconnect", "hb-fault", "v1", "cmd:getPubKey", "cmd:blockchainState", "cmd:blockchainParameters",
                        "cmd:signerHeartbeat", "cmd:uiHeartbeat", "uihb:ok", "uihb:device-error",
-                       "diff:0", "diff:max", "sig:0x31"] for t in ("quick", "thorough")}
+                       "diff:0", "diff:max", "sig:0x31", "stale-frame-refused|stale-frame-accepted"] for t in ("quick", "thorough")}
 
 h32 = st.binary(min_size=32, max_size=32)
 
@@ -54,6 +54,11 @@ def one_query(draw, tier):
             st.integers(0, 2 ** 288 - 1),
             st.integers(1, 36).flatmap(lambda n: st.integers(0, 2 ** (8 * n) - 1))))
         c["flags"] = [draw(st.integers(0, 1)) for _ in range(3)]
+        if draw(st.integers(0, 5)) == 0:
+            # one answer of the series is a stale frame: well-formed, but for another hash
+            i = draw(st.integers(0, len(SELECTORS) - 1))
+            j = draw(st.integers(0, len(SELECTORS) - 2))
+            c["swap"] = [SELECTORS[i], [x for x in SELECTORS if x != SELECTORS[i]][j]]
     elif cmd == "blockchainParameters":
         c["checkpoint"] = draw(h32)
         c["min_diff"] = draw(st.one_of(st.sampled_from([0, 1, 2 ** 288 - 1]),
@@ -178,6 +183,7 @@ def run_query(c, w, p):
         w.hashes = dict(zip(SELECTORS, c["hashes"]))
         w.difficulty = c["difficulty"]
         w.flags = tuple(c["flags"])
+        w.state_swap = tuple(c["swap"]) if c.get("swap") else None
         if c["difficulty"] == 0:
             labels.append("diff:0")
         if c["difficulty"] == 2 ** 288 - 1:
@@ -266,7 +272,13 @@ def run_query(c, w, p):
     if cmd == "getPubKey":
         named_fields(rep, {"errorcode": 0, "pubKey": dict(zip(refs.ALL_PATHS, c["keys"]))[
             c["path"]].hex()}, "getPubKey")
+    elif cmd == "blockchainState" and c.get("swap") and rep["errorcode"] != 0:
+        # the manager noticed the stale frame: a device error, nothing reported
+        expect(rep["errorcode"], -905, "errorcode after a stale frame")
+        labels.append("stale-frame-refused")
     elif cmd == "blockchainState":
+        if c.get("swap"):
+            labels.append("stale-frame-accepted")
         expect(rep["errorcode"], 0, "errorcode")
         st_ = rep.get("state", {})
         want = {"updating": {}}
